@@ -83,9 +83,13 @@ Definition parse_paths (e : penv) (u f s : sval) : option pcfg :=
   | _, _, _ => None
   end.
 
-(* the locations a Config stands for, as the monitor is told them (lexically normalised, like every traced path) *)
+(* the locations a Config stands for, as the monitor is told them (lexically normalised, like every traced path).
+   The file-dictionary DIRECTORY is given as the monitor wants a directory: without a trailing separator, i.e. as the
+   prefix d such that its children are d ++ "/" ++ name — the root directory is therefore the EMPTY prefix (render'),
+   not "/" (with "/" the monitor's `dir_of p = m_filedir` could never hold and a fileDictPath of "/" had to be excluded
+   by hypothesis; it no longer is). *)
 Definition mcfg_of (pc : pcfg) : mcfg :=
-  mkcfg (render (resolve (p_user pc))) (render (resolve (p_filedir pc))) (render (resolve (p_stats pc))) [].
+  mkcfg (render (resolve (p_user pc))) (render' (resolve (p_filedir pc))) (render (resolve (p_stats pc))) [].
 
 (* the three kinds of write under a Config *)
 Definition cfg_user_plan (pc : pcfg) : bytes * bytes * bytes := save_plan (p_user pc).
@@ -104,6 +108,10 @@ Definition names_file (cs : list bytes) : bool :=
 (* for the driver: the three locations of the parsed configuration, or None *)
 Definition parse_render (e : penv) (u f s : sval) : option (bytes * bytes * bytes) :=
   match parse_paths e u f s with
-  | Some pc => Some (m_user (mcfg_of pc), m_filedir (mcfg_of pc), m_stats (mcfg_of pc))
+  | Some pc => Some (m_user (mcfg_of pc), render (resolve (p_filedir pc)), m_stats (mcfg_of pc))
   | None => None
   end.
+
+(* for the driver: the file-dictionary directory as the monitor is told it (the prefix of its children; "" = root) *)
+Definition parse_monitor_filedir (e : penv) (u f s : sval) : option bytes :=
+  match parse_paths e u f s with Some pc => Some (m_filedir (mcfg_of pc)) | None => None end.
